@@ -151,7 +151,11 @@ def cross_script_case(ctx, case):
     ctx.evaluated(4)
     before = run_b()
     pa = DDLParser(a_ddl)
-    ra = pa.run(**args)
+    try:
+        ra = pa.run(**args)
+    except Exception as e:
+        ctx.violation("depends_on_other_scripts_parsed_earlier", case, {"step": "A (two plain tables) after B was tried", "observed": ["exc", type(e).__name__, str(e)[:200]]})
+        return
     snap = copy.deepcopy(ra)
     after = run_b()
     ctx.obs["cross_script_histories"] += 1
@@ -160,7 +164,11 @@ def cross_script_case(ctx, case):
     if ra != snap:
         ctx.violation("returned_result_modified_later", case, {"modified_by": "run() of another script on another object",
                                                                "diffs": [(q, short(x, 100), short(y, 100)) for q, x, y in ddiff(ra, snap)[:4]]})
-    again = pa.run(**args)
+    try:
+        again = pa.run(**args)
+    except Exception as e:
+        ctx.violation("depends_on_earlier_calls", case, {"step": "A again after B", "observed": ["exc", type(e).__name__, str(e)[:200]], "first_run": short(snap, 200)})
+        return
     if canon(again) != canon(snap):
         ctx.violation("depends_on_earlier_calls", case, {"step": "A again after B", "diffs": [(q, short(x, 100), short(y, 100)) for q, x, y in ddiff(again, snap)[:4]] if not isinstance(again, str) else None})
 
